@@ -5,6 +5,7 @@ import (
 	"fmt"
 	"path/filepath"
 	"sync"
+	"sync/atomic"
 	"time"
 
 	"github.com/spf13/viper"
@@ -13,6 +14,7 @@ import (
 	"github.com/dappledger/AnnChain/gemmill/consensus/pbft"
 	crypto "github.com/dappledger/AnnChain/gemmill/go-crypto"
 	events "github.com/dappledger/AnnChain/gemmill/modules/go-events"
+	"github.com/dappledger/AnnChain/gemmill/modules/verifhook"
 	"github.com/dappledger/AnnChain/gemmill/p2p"
 	sm "github.com/dappledger/AnnChain/gemmill/state"
 	"github.com/dappledger/AnnChain/gemmill/types"
@@ -33,6 +35,13 @@ type LiveConfig struct {
 	Silent    int           // index of a validator that never proposes (-1 = none)
 	NilVoter  int           // index of a validator that always prevotes nil (-1 = none)
 	MaxRounds int64         // bound on rounds per height (logical)
+	// late join: validator LateJoiner is connected to nobody until all others have committed JoinAfter
+	// heights; at that moment validator Crasher is stopped for good (so that the others cannot go on
+	// without the late joiner) and the late joiner is connected to the rest. -1 = not used.
+	LateJoiner  int
+	Crasher     int
+	JoinAfter   int64
+	GossipBound int64 // late join: bound on vote-gossip iterations until the late joiner has committed JoinAfter heights
 }
 
 type LiveResult struct {
@@ -45,6 +54,11 @@ type LiveResult struct {
 	TimedOut   bool
 	RoundBound string
 	Events     int
+	Joined     bool // late join: the late joiner was connected
+	// logical clock of the late-join scenario: iterations of the vote gossip routines (all nodes of
+	// the process) between the connection of the late joiner and its commit of height JoinAfter
+	CatchUpIters int64
+	CatchUpBound string // set when the bound on that count was exceeded
 }
 
 type liveNode struct {
@@ -68,12 +82,20 @@ func RunLive(cfg LiveConfig) LiveResult {
 		gen.Validators = append(gen.Validators, types.GenesisValidator{PubKey: keys[i].PubKey(), Amount: cfg.Powers[i], Name: fmt.Sprintf("n%d", i), IsCA: true})
 	}
 	var mtx sync.Mutex
+	var gossipIters int64
+	verifhook.SetPointFunc(func(site string) {
+		if site == "pbft.gossipVotes" {
+			atomic.AddInt64(&gossipIters, 1)
+		}
+	})
+	defer verifhook.SetPointFunc(nil)
 	byH := map[int64][]byte{}
 	heights := make([]int64, cfg.N)
 	done := make(chan struct{})
 	closed := false
 	nodes := make([]*liveNode, cfg.N)
-	honest := func(i int) bool { return i != cfg.Silent && i != cfg.NilVoter }
+	late := cfg.LateJoiner >= 0 && cfg.JoinAfter > 0
+	honest := func(i int) bool { return i != cfg.Silent && i != cfg.NilVoter && !(late && i == cfg.Crasher) }
 	check := func() {
 		for i := 0; i < cfg.N; i++ {
 			if honest(i) && heights[i] < cfg.Heights {
@@ -169,10 +191,69 @@ func RunLive(cfg LiveConfig) LiveResult {
 		nodes[i] = &liveNode{idx: i, cs: cs, conR: conR, store: store, app: app, evsw: evsw}
 	}
 	swc := viper.New()
-	switches := p2p.MakeConnectedSwitches(swc, cfg.N, func(i int, sw *p2p.Switch) *p2p.Switch {
+	var switches []*p2p.Switch
+	switches = p2p.MakeConnectedSwitches(swc, cfg.N, func(i int, sw *p2p.Switch) *p2p.Switch {
 		sw.AddReactor("CONSENSUS", nodes[i].conR)
 		return sw
-	}, p2p.Connect2Switches)
+	}, func(sws []*p2p.Switch, i, j int) {
+		if late && (i == cfg.LateJoiner || j == cfg.LateJoiner) {
+			return
+		}
+		p2p.Connect2Switches(sws, i, j)
+	})
+	if late {
+		go func() {
+			for {
+				time.Sleep(20 * time.Millisecond)
+				mtx.Lock()
+				ready, over := true, closed
+				for i := 0; i < cfg.N; i++ {
+					if i != cfg.LateJoiner && heights[i] < cfg.JoinAfter {
+						ready = false
+					}
+				}
+				mtx.Unlock()
+				if over {
+					return
+				}
+				if !ready {
+					continue
+				}
+				if cfg.Crasher >= 0 {
+					switches[cfg.Crasher].Stop()
+				}
+				for j := 0; j < cfg.N; j++ {
+					if j != cfg.LateJoiner && j != cfg.Crasher {
+						p2p.Connect2Switches(switches, cfg.LateJoiner, j)
+					}
+				}
+				mtx.Lock()
+				res.Joined = true
+				mtx.Unlock()
+				at := atomic.LoadInt64(&gossipIters)
+				for {
+					time.Sleep(10 * time.Millisecond)
+					used := atomic.LoadInt64(&gossipIters) - at
+					mtx.Lock()
+					caught, over := heights[cfg.LateJoiner] >= cfg.JoinAfter, closed
+					if caught && res.CatchUpIters == 0 {
+						res.CatchUpIters = used
+					}
+					if !caught && !over && cfg.GossipBound > 0 && used > cfg.GossipBound {
+						res.CatchUpBound = fmt.Sprintf("the late joiner (validator %d) was connected at height %d while its peers were at heights %v; after %d iterations of the vote gossip routines it has still not committed height %d", cfg.LateJoiner, heights[cfg.LateJoiner]+1, heights, used, cfg.JoinAfter)
+						if !closed {
+							closed = true
+							close(done)
+						}
+					}
+					mtx.Unlock()
+					if caught || over || res.CatchUpBound != "" {
+						return
+					}
+				}
+			}
+		}()
+	}
 	reached, timedOut := false, false
 	select {
 	case <-done:
@@ -181,6 +262,9 @@ func RunLive(cfg LiveConfig) LiveResult {
 		timedOut = true
 	}
 	mtx.Lock()
+	if res.CatchUpBound != "" {
+		reached = false
+	}
 	res.Reached, res.TimedOut = reached, timedOut
 	res.Heights = append([]int64(nil), heights...)
 	out := res
